@@ -1,5 +1,6 @@
 SPECIFICATION Spec
 CONSTANTS
+  ShtabBreaksDefaults = {"A"}
   ClearOnError = TRUE
   Full = FALSE
   Emit = TRUE
@@ -9,6 +10,7 @@ INVARIANT NoStaleRead
 INVARIANT AlgIsRefOnFresh
 INVARIANT HistoryIndependent
 INVARIANT DeviationShape
+INVARIANT ShtabShape
 INVARIANT RepairClears
 INVARIANT PendingIsLocal
 INVARIANT EmitState
